@@ -194,6 +194,11 @@ YIELD_FILES = {
 YIELD_RE = re.compile(r"^(\s*)([\w.]+\.(?:Lock|RLock)\(\)|[\w.]+\.Wait\(\)|key\.increment\(\)|if c\.refs\.Add\(-1\) > 0 \{|c\.refs\.Add\(1\))\s*$")
 
 
+# an explicit (non-deferred) Unlock statement ends a critical section early: yield right AFTER it, so that the window it opens
+# is explored as well (the pinned code releases its locks with defer, so this adds no yield point there)
+UNLOCK_RE = re.compile(r"^(\s*)([\w.]+\.(?:Unlock|RUnlock)\(\))\s*$")
+
+
 def instrument_yields(src, name):
     out = []
     for i, line in enumerate(src.split("\n"), 1):
@@ -202,6 +207,9 @@ def instrument_yields(src, name):
             what = re.sub(r"[^A-Za-z.()]", "", m.group(2))[:24]
             out.append('%sverifYield("%s:%d %s")' % (m.group(1), name, i, what))
         out.append(line)
+        u = UNLOCK_RE.match(line)
+        if u:
+            out.append('%sverifYield("%s:%d after %s")' % (u.group(1), name, i, re.sub(r"[^A-Za-z.()]", "", u.group(2))[:24]))
     return "\n".join(out)
 
 
